@@ -27,6 +27,13 @@ Streams
          directory), the source rewritten between two calls, another converter working in
          between; after every step the output, the log, the source and the created files are
          observed and every delivered output is judged like a single conversion.
+         For StringIO sources the model is also asked which text reaches the XML parser (`dropDecl`,
+         Model/ConvText.lean: the XML declaration is taken off, whatever encoding it names).
+         Added after seeded round 5: the declaration of a StringIO text / of a file names any
+         encoding (ISO-8859-1, windows-1252, UTF-16, US-ASCII, Shift_JIS, ...; quotes, standalone),
+         Windows line ends, CDATA sections, <a></a>, DOCTYPE, YAML byte order mark / scalar styles,
+         source file names (blank, non-ASCII, no / other extension), non-ASCII text in every place
+         of the document (units, definitions, file names, author, dropped elements, ...).
   csv    random value texts through xmlparser.from_csv and the model's `fromCsv`.
   uuid   id texts through uuid.UUID and the model's `parseUuid`.
   tables VersionConverter._version_map against the model's `versionMap`.
@@ -79,18 +86,44 @@ def has_misc(t):
     return is_misc(t) or any(has_misc(k) for k in t[3])
 
 
-def tree_to_xml(t):
+def cdata_ok(text, enc):
+    """texts that may be written as one CDATA section without changing what they mean: no ']]>', no
+    carriage return (a literal one is normalised away, only a character reference keeps it), not
+    blank (blank text may be dropped by the parser, blank CDATA is not), every character in the
+    encoding of the file (there are no character references inside CDATA)"""
+    try:
+        text.encode(enc or "utf-8")
+    except (UnicodeError, LookupError):
+        return False
+    return bool(text.strip()) and "]]>" not in text and "\r" not in text
+
+
+def attrs_to_xml(attrs, opt=None):
+    if (opt or {}).get("squote"):
+        return "".join(" %s='%s'" % (k, xml_escape(v, True).replace("'", "&apos;")) for k, v in attrs)
+    return "".join(' %s="%s"' % (k, xml_escape(v, True)) for k, v in attrs)
+
+
+def tree_to_xml(t, opt=None):
+    """opt (all optional; other ways to write down the same tree): "cdata" - every second suitable
+    element text as a CDATA section ("enc": the encoding the file is going to be written in), "longempty" - <a></a> instead of <a/>, "squote" - XML
+    attributes in single quotes"""
     if is_misc(t):
         return misc_to_xml(t)
+    opt = opt or {}
     tag, attrs, text, kids = t
-    a = "".join(' %s="%s"' % (k, xml_escape(v, True)) for k, v in attrs)
-    inner = xml_escape(text) + "".join(tree_to_xml(k) for k in kids)
-    if not inner:
+    a = attrs_to_xml(attrs, opt)
+    if opt.get("cdata") and cdata_ok(text, opt.get("enc")) and (len(text) + len(kids)) % 2 == 0:
+        body = "<![CDATA[%s]]>" % text
+    else:
+        body = xml_escape(text)
+    inner = body + "".join(tree_to_xml(k, opt) for k in kids)
+    if not inner and not opt.get("longempty"):
         return "<%s%s/>" % (tag, a)
     return "<%s%s>%s</%s>" % (tag, a, inner, tag)
 
 
-def tree_to_pretty(t, depth=0):
+def tree_to_pretty(t, depth=0, opt=None):
     """The same document indented the way the 1.0 files are: element-only content on lines of
     its own; an element with text is left on one line (white space there would be content)."""
     pad = "  " * depth
@@ -98,9 +131,9 @@ def tree_to_pretty(t, depth=0):
         return pad + misc_to_xml(t) + "\n"
     tag, attrs, text, kids = t
     if text or not kids:
-        return pad + tree_to_xml(t) + "\n"
-    a = "".join(' %s="%s"' % (k, xml_escape(v, True)) for k, v in attrs)
-    return "%s<%s%s>\n%s%s</%s>\n" % (pad, tag, a, "".join(tree_to_pretty(k, depth + 1) for k in kids), pad, tag)
+        return pad + tree_to_xml(t, opt) + "\n"
+    a = attrs_to_xml(attrs, opt)
+    return "%s<%s%s>\n%s%s</%s>\n" % (pad, tag, a, "".join(tree_to_pretty(k, depth + 1, opt) for k in kids), pad, tag)
 
 
 def lxml_to_tree(el, notes):
@@ -425,7 +458,7 @@ NAMES = ["a", "b", "p", "p-2", "p-3", "a-2", "s", "s-2", "ab", "q", "p-10", "\u0
 NAMES_WF = ["a", "b", "p", "q", "s", "ab", "\u00f1"]
 TYPES = ["t", "recording", "subject/animal", "t\u00ffpe"]
 WORDS = ["a", "b", "c", "x y", "1", "12", "w1", "é", "v", "zz", "\u540d"]
-COMMENTS = [" note ", "c", " <section> old </section> ", "", " a - b "]
+COMMENTS = [" note ", "c", " <section> old </section> ", "", " a - b ", " was <?xml version='1.0'?> ", "?>"]
 TRICKY = ["a,b", "c,", ",", 'say "hi"', '"q"', '"', "[x]", "[x", "y]", "[a,b]", "a\nb", " lead", "trail ",
           " nb ", " ", "  ", "\n", "a;b", "(1;2)", "x\ty", "['one', 'two']", "a]b[c", "<&>",
           "a\rb", '"a,b"', "[]", "[", "]", "a, b", "''"]
@@ -438,17 +471,34 @@ BAD_IDS = ["xyz", "1234", "79b613eb-a256-46bf-84f6-207df465b8fz", "79b613eb-a256
 UNSUPPORTED = ["mapping", "foo", "Name", "synonym", "comment", "checksum", "encoder", "filename", "dtype",
                "values", "odML"]
 VATTR_UNSUP = ["encoder", "checksum", "comment", "foo", "Unit"]
+# non-ASCII text (BMP, no character Python's strip() takes for white space) for every place of a
+# document that holds text: what a 1.0 file written in ISO-8859-1 / windows-1252 / UTF-16 is full of
+UNI_NAMES = ["Gr\u00f6\u00dfe", "Messger\u00e4t", "\u00f1", "\u540d\u524d", "\u0394t", "caf\u00e9"]
+UNI_WORDS = ["gro\u00df", "\u00b5", "\u00e9t\u00e9", "\u20ac 5", "\u540d", "na\u00efve", "\u00c5"]
+UNI_POOLS = {"unit": ["\u00b5m", "\u03a9", "\u00b0C"], "uncertainty": ["0.1", "2"],
+             "filename": ["d\u00e4tei.txt", "g.dat"], "definition": ["Gr\u00f6\u00dfe in \u00b5m", "d\u00e9f two"],
+             "reference": ["r\u00e9f1", "ref2"]}
 
 
 class Gen(object):
-    def __init__(self, rng, profile):
+    def __init__(self, rng, profile, uni=False):
         self.r = rng
         self.p = profile      # "wf": plain value texts, no sibling called 'p-2'; "wild": everything
+        self.uni = uni        # non-ASCII text in names, types, values, units, definitions, ... as well
         self.marker = 0
+
+    def pool(self, tag, plain):
+        return UNI_POOLS[tag] if (self.uni and tag in UNI_POOLS) else plain
+
+    def words(self, plain, uni_words=None):
+        """a text from `plain`; in a non-ASCII document half of the time a non-ASCII one"""
+        if self.uni and self.chance(0.5):
+            return self.r.choice(uni_words or UNI_WORDS)
+        return self.r.choice(plain)
 
     # -- XML comments / processing instructions at any level --------------------
     def misc(self):
-        if self.chance(0.85):
+        if self.chance(0.7):
             return T("#comment", self.r.choice(COMMENTS))
         return T("#pi", self.r.choice(["note keep", "x-odml a=\"b\""]))
 
@@ -506,6 +556,8 @@ class Gen(object):
         return self.r.random() < x
 
     def name(self):
+        if self.uni and self.chance(0.45):
+            return self.r.choice(UNI_NAMES)
         if self.p == "wf":
             return self.r.choice(NAMES_WF)
         return self.r.choice(NAMES)
@@ -519,9 +571,9 @@ class Gen(object):
         return [T("id", self.r.choice(BAD_IDS))]
 
     def inert(self, tag):
-        t = T(tag, self.r.choice(["", "u1", "some text", "x"]))
+        t = T(tag, self.words(["", "u1", "some text", "x"], ["\u00fcbrig", "\u00b5", "r\u00e9sum\u00e9 1"]))
         if self.chance(0.2):
-            t[3] = [T(self.r.choice(["deep", "foo", "name", "unit"]), self.r.choice(["", "d"]))]
+            t[3] = [T(self.r.choice(["deep", "foo", "name", "unit"]), self.words(["", "d"]))]
         return t
 
     def vtext(self, dtype):
@@ -529,7 +581,7 @@ class Gen(object):
             return str(self.r.choice([0, 1, 7, 12, 345, -3]))
         if self.p == "wild" and self.chance(0.4):
             return self.r.choice(TRICKY)
-        w = self.r.choice(WORDS)
+        w = self.words(WORDS)
         if self.chance(0.2):
             w = self.r.choice([" ", "\n   ", ""]) + w + self.r.choice([" ", "\n  ", ""])
         return w
@@ -546,9 +598,10 @@ class Gen(object):
                               ("filename", ["f.txt", "g.dat"]), ("definition", ["def one", "def two"]),
                               ("reference", ["ref1", "ref2"])):
                 if self.chance(0.35):
+                    pool = self.pool(tag, pool)
                     kids.append(T(tag, pool[0] if not conflict else self.r.choice(pool)))
             if self.chance(0.25):
-                kids.append(T(self.r.choice(VATTR_UNSUP), self.r.choice(["", "e1", "chk"])))
+                kids.append(T(self.r.choice(VATTR_UNSUP), self.words(["", "e1", "chk"], ["pr\u00fcf", "\u00e9"])))
             if self.chance(0.05):
                 kids.append(self.inert(self.r.choice(VATTR_UNSUP)))
             if self.chance(0.05):
@@ -579,11 +632,11 @@ class Gen(object):
             vals.append(T("value", "UNNAMED%d" % self.marker))
         extra = []
         if self.chance(0.3):
-            extra.append(T("definition", self.r.choice(["def one", "prop def"])))
+            extra.append(T("definition", self.words(["def one", "prop def"], UNI_POOLS["definition"])))
         if self.chance(0.2):
-            extra.append(T("dependency", "dep"))
+            extra.append(T("dependency", self.words(["dep"], UNI_NAMES)))
         if self.chance(0.25):
-            extra.append(T(self.r.choice(["dependency_value", "dependencyvalue"]), "dv"))
+            extra.append(T(self.r.choice(["dependency_value", "dependencyvalue"]), self.words(["dv"])))
         if self.chance(0.25):
             extra.append(self.inert(self.r.choice(UNSUPPORTED)))
         extra += self.idkid()
@@ -601,7 +654,7 @@ class Gen(object):
     def section(self, depth):
         kids = [T("name", self.name()), T("type", self.r.choice(TYPES))]
         if self.chance(0.3):
-            kids.append(T("definition", "sec def"))
+            kids.append(T("definition", self.words(["sec def"], ["Abschnitt f\u00fcr Gr\u00f6\u00dfen"])))
         kids += self.idkid()
         if self.chance(0.3):
             kids.append(self.inert(self.r.choice(UNSUPPORTED)))
@@ -625,7 +678,7 @@ class Gen(object):
     def doc(self):
         kids = []
         if self.chance(0.6):
-            kids.append(T("author", "me"))
+            kids.append(T("author", self.words(["me"], ["J\u00fcrgen M\u00fcller", "\u540d\u524d"])))
         if self.chance(0.6):
             kids.append(T("date", "2008-07-07"))
         if self.chance(0.4):
@@ -663,9 +716,11 @@ class Gen(object):
             for tag, pool in (("unit", ["mV", "s"]), ("uncertainty", ["0.1", 2]), ("filename", ["f.txt", "g"]),
                               ("definition", ["def one", "def two"]), ("reference", ["ref1", "ref2"])):
                 if self.chance(0.3):
+                    if tag != "uncertainty":
+                        pool = self.pool(tag, pool)
                     items.append([tag, pool[0] if not conflict else self.r.choice(pool)])
             if self.chance(0.25):
-                items.append([self.r.choice(VATTR_UNSUP), self.r.choice([None, "e1", 5])])
+                items.append([self.r.choice(VATTR_UNSUP), self.words([None, "e1", 5], ["pr\u00fcf"])])
         self.r.shuffle(items)
         return items
 
@@ -689,11 +744,11 @@ class Gen(object):
             self.marker += 1
             vals.append([["value", "UNNAMED%d" % self.marker]])
         if self.chance(0.3):
-            items.append(["attr", "definition", "prop def"])
+            items.append(["attr", "definition", self.words(["prop def"], UNI_POOLS["definition"])])
         if self.chance(0.25):
-            items.append(["attr", self.r.choice(["dependency_value", "dependencyvalue"]), "dv"])
+            items.append(["attr", self.r.choice(["dependency_value", "dependencyvalue"]), self.words(["dv"])])
         if self.chance(0.25):
-            items.append(["attr", self.r.choice(["mapping", "foo", "synonym"]), self.r.choice([None, "m"])])
+            items.append(["attr", self.r.choice(["mapping", "foo", "synonym"]), self.words([None, "m"], ["\u00fcbrig"])])
         c = self.idkid()
         if c and c[0][2]:
             items.append(["attr", "id", c[0][2]])
@@ -704,12 +759,12 @@ class Gen(object):
     def d_sec(self, depth):
         items = [["attr", "name", self.name()], ["attr", "type", self.r.choice(TYPES)]]
         if self.chance(0.3):
-            items.append(["attr", "definition", "sec def"])
+            items.append(["attr", "definition", self.words(["sec def"], ["Abschnitt f\u00fcr Gr\u00f6\u00dfen"])])
         c = self.idkid()
         if c and c[0][2]:
             items.append(["attr", "id", c[0][2]])
         if self.chance(0.25):
-            items.append(["attr", self.r.choice(["mapping", "foo", "synonym"]), self.r.choice([None, "m"])])
+            items.append(["attr", self.r.choice(["mapping", "foo", "synonym"]), self.words([None, "m"], ["\u00fcbrig"])])
         if self.chance(0.8):
             props = [self.d_prop() for _ in range(self.r.choice([0, 1, 2, 3]))]
             if self.chance(0.03):
@@ -730,7 +785,7 @@ class Gen(object):
     def d_doc(self):
         items = []
         if self.chance(0.6):
-            items.append(["attr", "author", "me"])
+            items.append(["attr", "author", self.words(["me"], ["J\u00fcrgen M\u00fcller", "\u540d\u524d"])])
         if self.chance(0.5):
             items.append(["attr", "date", "2018-07-07"])
         if self.chance(0.5):
@@ -771,10 +826,13 @@ class C15(fw.Check):
         "property_content_needs_fresh_canonical",
         # whole-tree structural acceptance by the strict reader
         "convert_accepted", "wf10_implies_loadWF", "convert_loadable_with_same_content",
-        "convert_accepted_needs_type"]]
+        "convert_accepted_needs_type",
+        # the text entry point (StringIO): the declaration is taken off, what it names plays no role
+        "stringio_decl_dropped", "stringio_declared_encoding_irrelevant", "stringio_no_decl_unchanged",
+        "stringio_only_prefix_removed", "stringio_decl_witness"]]
     trusted_base = [
         "Lean 4.33.0 kernel; axioms propext, Classical.choice, Quot.sound only (audited per theorem)",
-        "hand-written model lean/OdmlModel/Model/Conv.lean + ConvXml.lean, tied to /repo by this run",
+        "hand-written model lean/OdmlModel/Model/Conv.lean + ConvXml.lean + ConvText.lean, tied to /repo by this run",
         "harness/extract_tables.py (format._args tables regenerated into Lean on every run)",
         "Driver/C15.lean JSON glue; harness/framework.py, harness/c15.py",
         "lxml text<->tree, json / PyYAML text<->dict, csv module (Py/Csv.lean + Model/XmlCsv.lean, the "
@@ -798,9 +856,13 @@ class C15(fw.Check):
             "value level, both dependency_value spellings, value texts with , \" [ ] newline blank; "
             "x XML (StringIO and file) / JSON / YAML (file) x write_to_file target names; 10-13 siblings "
             "of one name, 5-12 value elements, section chains of depth 5-9; the same documents in other "
-            "surface syntax (pretty-printed, XML declaration, stylesheet PI, comments / PIs at every level, "
-            "ISO-8859-1 / UTF-16 / BOM files, raw / escaped non-ASCII and flow style in JSON / YAML, StringIO "
-            "read position) x backend spelling (lower / mixed case / left out); operation histories on one "
+            "surface syntax (pretty-printed, XML declaration naming any of 12 encodings in either quote style "
+            "with / without standalone - for files written in that encoding, for a StringIO the decoded text -, "
+            "stylesheet PI, DOCTYPE, comments / PIs at every level, CDATA sections, <a></a>, single-quoted "
+            "attributes, Windows line ends, BOM files, raw / escaped non-ASCII, flow style, scalar styles, line "
+            "width and byte order mark in JSON / YAML, key order of the top-level dict, source file names with "
+            "blanks / non-ASCII / no or another extension, StringIO read position) x non-ASCII text in every "
+            "text-carrying place of the document x backend spelling (lower / mixed case / left out); operation histories on one "
             "converter object (convert, write_to_file, str, refused and failing calls, source rewritten in "
             "between, another converter in between); JSON / YAML / XML files in a child process with an ASCII "
             "locale and another hash seed; the same generated documents with a root that already declares format "
@@ -817,7 +879,7 @@ class C15(fw.Check):
         cases = [{"stream": "tables"}]
         for i in range(n):
             profile = "wf" if i % 3 else "wild"
-            g = Gen(rng, profile)
+            g = Gen(rng, profile, uni=(i % 7 == 6))
             kind = i % 5
             if kind in (0, 1):
                 cases.append({"stream": "conv", "fmt": "XML", "input": "stringio", "tree": g.doc()})
@@ -887,7 +949,7 @@ class C15(fw.Check):
         PIs at every level, file encodings, BOM, raw non-ASCII in JSON; backend spelling."""
         cases = []
         for i in range(n):
-            g = Gen(rng, "wf" if i % 3 else "wild")
+            g = Gen(rng, "wf" if i % 3 else "wild", uni=(i % 4 != 3))
             kind = i % 6
             backend = self.backend_spelling(rng, "XML" if kind < 4 else ("JSON" if kind == 4 else "YAML"))
             if kind < 4:
@@ -896,27 +958,74 @@ class C15(fw.Check):
                 nmisc = rng.choice([0, 0, 1, 2, 3, 5])
                 if nmisc:
                     g.decorate(tree, nmisc, in_values=(rng.random() < 0.2))
-                if inp == "stringio":
-                    decl = rng.choice([None, None, "noenc", "noenc", "UTF-8"])
-                else:
-                    decl = rng.choice([None, "noenc", "UTF-8", "utf-8", "ISO-8859-1", "UTF-16", "bom", "bom+UTF-8"])
-                surface = {"pretty": rng.random() < 0.6, "decl": decl, "pi": rng.random() < 0.4,
-                           "top": rng.random() < 0.25, "tail": rng.random() < 0.15}
-                if inp == "stringio":
-                    # where the read position of the StringIO is: start, end (just written), middle
-                    surface["pos"] = rng.choice(["start", "end", "mid"])
+                surface = self.xml_surface(rng, inp, True)
                 case = {"stream": "conv", "fmt": "XML", "input": inp, "tree": tree, "surface": surface,
                         "backend": backend}
                 if inp == "file":
-                    case["out"] = rng.choice(["res", "res.xml", "res.odml", "res.txt"])
+                    case["out"] = rng.choice(["res", "res.xml", "res.odml", "res.txt", "r\u00e9s \u00fc"])
+                    case["srcname"] = self.src_name(rng, "XML")
                 cases.append(case)
             else:
                 fmt = "JSON" if kind == 4 else "YAML"
-                surface = {"raw": rng.random() < 0.7, "compact": rng.random() < 0.4}
+                surface = self.dict_surface(rng, fmt)
                 cases.append({"stream": "conv", "fmt": fmt, "input": "file", "doc": g.d_doc(),
                               "out": rng.choice(["res", "res.xml", "o.odml"]), "surface": surface,
-                              "backend": backend})
+                              "backend": backend, "srcname": self.src_name(rng, fmt)})
         return cases
+
+    # every encoding below is one lxml reads from a file (probed on the unchanged tree; UTF-32 is not)
+    FILE_DECLS = [None, "noenc", "UTF-8", "utf-8", "ISO-8859-1", "UTF-16", "bom", "bom+UTF-8",
+                  "iso-8859-1", "ISO-8859-15", "windows-1252", "US-ASCII", "UTF-16LE", "UTF-16BE", "bom16",
+                  "Shift_JIS", "KOI8-R"]
+    # a text stream holds decoded text: whatever encoding its first line names is history
+    STRINGIO_DECLS = [None, "noenc", "UTF-8", "utf-8", "ISO-8859-1", "iso-8859-1", "latin1", "ISO-8859-15",
+                      "windows-1252", "US-ASCII", "UTF-16", "UTF-16LE", "Shift_JIS", "KOI8-R"]
+
+    def xml_surface(self, rng, inp, comments):
+        """how an XML source is written down (see source_of)"""
+        decl = rng.choice(self.STRINGIO_DECLS if inp == "stringio" else self.FILE_DECLS)
+        surface = {"pretty": rng.random() < 0.6, "decl": decl, "pi": rng.random() < 0.4}
+        if comments:
+            surface.update({"top": rng.random() < 0.25, "tail": rng.random() < 0.15})
+        if decl not in (None, "bom", "bom16"):
+            if rng.random() < 0.3:
+                surface["quote"] = "'"
+            if rng.random() < 0.15:
+                surface["standalone"] = rng.choice(["yes", "no"])
+        for key, chance in (("crlf", 0.2), ("cdata", 0.15), ("longempty", 0.15), ("squote", 0.15), ("doctype", 0.1),
+                            ("oneline", 0.35)):
+            if rng.random() < chance:
+                surface[key] = True
+        if inp == "stringio":
+            # where the read position of the StringIO is: start, end (just written), middle
+            surface["pos"] = rng.choice(["start", "end", "mid"])
+        return surface
+
+    @staticmethod
+    def dict_surface(rng, fmt):
+        surface = {"raw": rng.random() < 0.7, "compact": rng.random() < 0.4}
+        if rng.random() < 0.2:
+            surface["version_first"] = True
+        if fmt == "JSON":
+            if rng.random() < 0.2:
+                surface["crlf"] = True
+            if rng.random() < 0.15:
+                surface["tabs"] = True
+        else:
+            if rng.random() < 0.2:
+                surface["bom"] = True       # YAML streams may start with a byte order mark
+            if rng.random() < 0.25:
+                surface["style"] = rng.choice(['"', "'"])
+            if rng.random() < 0.15:
+                surface["width"] = rng.choice([10, 30, 1000])
+        return surface
+
+    @staticmethod
+    def src_name(rng, fmt):
+        """name of the source file: the parser is chosen by the backend argument, not by the name"""
+        ext = {"XML": ".xml", "JSON": ".json", "YAML": ".yaml"}[fmt]
+        return rng.choice(["src" + ext, "src" + ext, "src", "my src" + ext, "sr\u00f6c \u540d" + ext, "src.odml",
+                           "src.v1.0" + ext, "SRC" + ext.upper()])
 
     def generate_locale(self, n, rng):
         """conv cases (file input) run in a child interpreter whose locale encoding is ASCII:
@@ -924,12 +1033,17 @@ class C15(fw.Check):
         cases = []
         for i in range(n):
             fmt = ["JSON", "YAML", "XML"][i % 3]
+            # every second XML case hands the text over as a StringIO that names another encoding
+            stringio = (fmt == "XML" and i % 2 == 1)
             for _ in range(6):
-                g = Gen(rng, "wf")
-                case = {"stream": "conv", "fmt": fmt, "input": "file", "out": "res", "locale": "C",
-                        "surface": {"pretty": True, "decl": "UTF-8"} if fmt == "XML" else
+                g = Gen(rng, "wf", uni=(i % 2 == 1))
+                case = {"stream": "conv", "fmt": fmt, "input": "stringio" if stringio else "file", "locale": "C",
+                        "surface": {"pretty": True, "decl": rng.choice(["ISO-8859-1", "windows-1252", "UTF-16"])
+                                    if stringio else "UTF-8"} if fmt == "XML" else
                                    ({"raw": True} if i % 2 == 0 else {"escaped": True}),
                         "backend": fmt, "hashseed": rng.choice([0, 1, 7, 4242])}
+                if not stringio:
+                    case["out"] = "res"
                 case["tree" if fmt == "XML" else "doc"] = g.doc() if fmt == "XML" else g.d_doc()
                 if i % 2 or not self.ascii_source(case):
                     break
@@ -944,7 +1058,7 @@ class C15(fw.Check):
         cases = []
         targets = ["res", "res.xml", "o.odml", "res.txt", "second"]
         for i in range(n):
-            g = Gen(rng, "wf" if i % 3 else "wild")
+            g = Gen(rng, "wf" if i % 3 else "wild", uni=(i % 2 == 0))
             fmt = ["XML", "XML", "XML", "JSON", "YAML"][i % 5]
             inp = "stringio" if (fmt == "XML" and rng.random() < 0.5) else "file"
             others = [f for f in ("XML", "JSON", "YAML") if f != fmt]
@@ -975,6 +1089,12 @@ class C15(fw.Check):
             if len([o for o in ops if o[0] in ("convert", "write")]) < 2:
                 ops.insert(0, ["convert", self.backend_spelling(rng, fmt)])
             case = {"stream": "hist", "fmt": fmt, "input": inp, "ops": ops}
+            if i % 2 == 0:
+                # the surface syntax of the source (both states of it) and the name of the source file
+                case["surface"] = self.xml_surface(rng, inp, False) if fmt == "XML" else self.dict_surface(rng, fmt)
+                case["surface"].pop("pos", None)
+                if inp == "file":
+                    case["srcname"] = self.src_name(rng, fmt)
             second = any(o[0] in ("edit", "other") for o in ops)     # else the second document is not used
             if fmt == "XML":
                 case["tree"] = g.doc()
@@ -1055,35 +1175,75 @@ class C15(fw.Check):
         return sorted(out)
 
     def source_of(self, case, version=0):
-        """-> (text a StringIO source holds, bytes a source file holds, XML body without prolog)"""
+        """-> (text a StringIO source holds, bytes a source file holds, XML body without prolog)
+
+        The surface keys only change how the document is written down, never what it says; the
+        third component is always the plain body (what the oracle and the model read).
+        XML: "decl" = None | "noenc" | "bom" | "bom+UTF-8" | the name of an encoding (the declaration
+        names it, the file is written in it, characters it does not have as character references);
+        "quote" = "'" (pseudo-attributes in single quotes), "standalone", "doctype", "pi", "top",
+        "tail", "oneline" (prolog and root on one line), "crlf" (Windows line ends), "cdata" / "longempty" / "squote" (see tree_to_xml).
+        A StringIO source holds the text a program gets that reads that file with its encoding: the
+        declaration may name any encoding, the text is already decoded."""
         sf = case.get("surface") or {}
         if case["fmt"] == "XML":
             tree = case["tree2" if version else "tree"]
             body = tree_to_pretty(tree) if sf.get("pretty") else tree_to_xml(tree)
             decl = sf.get("decl")
+            opt = dict((k, True) for k in ("cdata", "longempty", "squote") if sf.get(k))
+            written = body
+            if opt:
+                opt["enc"] = decl if decl not in (None, "noenc", "bom", "bom+UTF-8", "bom16") else "utf-8"
+                written = tree_to_pretty(tree, 0, opt) if sf.get("pretty") else tree_to_xml(tree, opt)
+            q = "'" if sf.get("quote") == "'" else '"'
             pre, enc, bom = "", "utf-8", b""
+            alone = " standalone=%s%s%s" % (q, sf["standalone"], q) if sf.get("standalone") else ""
             if decl == "noenc":
-                pre = '<?xml version="1.0"?>\n'
-            elif decl in ("UTF-8", "utf-8", "ISO-8859-1", "UTF-16"):
-                pre, enc = '<?xml version="1.0" encoding="%s"?>\n' % decl, decl
+                pre = "<?xml version=%s1.0%s%s?>\n" % (q, q, alone)
             elif decl == "bom":
                 bom = b"\xef\xbb\xbf"
+            elif decl == "bom16":
+                enc = "UTF-16"          # byte order mark (written by the codec), no declaration
             elif decl == "bom+UTF-8":
-                pre, bom = '<?xml version="1.0" encoding="UTF-8"?>\n', b"\xef\xbb\xbf"
+                pre, bom = "<?xml version=%s1.0%s encoding=%sUTF-8%s%s?>\n" % (q, q, q, q, alone), b"\xef\xbb\xbf"
+            elif decl:
+                pre, enc = "<?xml version=%s1.0%s encoding=%s%s%s%s?>\n" % (q, q, q, decl, q, alone), decl
+            if sf.get("doctype"):
+                pre += "<!DOCTYPE odML>\n"
             if sf.get("pi"):
                 pre += '<?xml-stylesheet type="text/xsl" href="odmlTerms.xsl"?>\n'
             if sf.get("top"):
                 pre += "<!-- odML 1.0 file -->\n"
-            text = pre + body + ("\n<!-- end -->\n" if sf.get("tail") else "")
-            return text, bom + text.encode(enc, "xmlcharrefreplace"), body
+            if sf.get("oneline"):
+                pre = pre.replace("\n", "")       # no line break between the prolog and the root
+            text = pre + written + ("\n<!-- end -->\n" if sf.get("tail") else "")
+            if sf.get("crlf"):
+                text = text.replace("\n", "\r\n")
+            data = text.encode(enc, "xmlcharrefreplace")
+            # what a reader of the file has in hand (the byte order mark is no part of the text)
+            text = data.decode(enc)
+            return text, bom + data, body
         data = {"Document": dsec_py(case["doc2" if version else "doc"]), "odml-version": "1"}
+        if sf.get("version_first"):
+            data = {"odml-version": "1", "Document": data["Document"]}
         if case["fmt"] == "JSON":
-            text = json.dumps(data, indent=None if sf.get("compact") else 2, ensure_ascii=not sf.get("raw"))
+            text = json.dumps(data, indent=None if sf.get("compact") else ("\t" if sf.get("tabs") else 2),
+                              ensure_ascii=not sf.get("raw"))
+            if sf.get("crlf"):
+                text = text.replace("\n", "\r\n")          # line ends outside strings only
         else:
             import yaml
             text = yaml.safe_dump(data, sort_keys=False, allow_unicode=not sf.get("escaped"),
-                                  default_flow_style=True if sf.get("compact") else False)
-        return text, text.encode("utf-8"), None
+                                  default_flow_style=True if sf.get("compact") else False,
+                                  default_style=sf.get("style"), width=sf.get("width", 80))
+            if ("style" in sf or "width" in sf) and yaml.safe_load(text) != data:
+                # PyYAML's emitter does not write every text in every style so that its own loader
+                # reads it back (e.g. a folded double-quoted scalar ending in a line break + blanks in
+                # flow style): then the file would not say what the case says - plain style instead
+                text = yaml.safe_dump(data, sort_keys=False, allow_unicode=not sf.get("escaped"),
+                                      default_flow_style=True if sf.get("compact") else False)
+        bom = b"\xef\xbb\xbf" if (sf.get("bom") and case["fmt"] == "YAML") else b""
+        return text, bom + text.encode("utf-8"), None
 
     @staticmethod
     def backend_args(case_backend, fmt):
@@ -1122,7 +1282,7 @@ class C15(fw.Check):
                 src_path = None
             else:
                 ext = {"XML": ".xml", "JSON": ".json", "YAML": ".yaml"}[case["fmt"]]
-                src_path = os.path.join(tmp, "src" + ext)
+                src_path = os.path.join(tmp, case.get("srcname") or "src" + ext)
                 with open(src_path, "wb") as fh:
                     fh.write(data)
                 with open(src_path, "rb") as fh:
@@ -1197,7 +1357,7 @@ class C15(fw.Check):
             if case["input"] == "stringio":
                 src = io.StringIO(vers[0][0])
             else:
-                src_path = os.path.join(tmp, "src" + ext)
+                src_path = os.path.join(tmp, case.get("srcname") or "src" + ext)
                 with open(src_path, "wb") as fh:
                     fh.write(vers[0][1])
                 src = src_path
@@ -1308,7 +1468,12 @@ class C15(fw.Check):
             # and the locale of the process are no content: the model is asked about the parsed
             # source tree without them (the three former known findings are fixed: 0b2a6bf,
             # efa346d, 7b9559d)
-            return [{"op": "convert", "fresh": FRESH, "tree": obs["src_parsed"]}]
+            reqs = [{"op": "convert", "fresh": FRESH, "tree": obs["src_parsed"]}]
+            if case["input"] == "stringio":
+                # the front end of the text entry point (Model/ConvText.lean): which text reaches the
+                # XML parser; compare() checks that it parses to the tree the model is asked about
+                reqs.append({"op": "decl", "s": self.source_of(case)[0]})
+            return reqs
         return [{"op": "dict", "fresh": FRESH, "doc": case["doc"]}]
 
     @staticmethod
@@ -1374,8 +1539,10 @@ class C15(fw.Check):
             return out
         if st == "hist":
             return self.compare_hist(case, obs, answers)
+        if len(answers) > 1:
+            out += self.decl_diff(case, obs, answers[1])
         if not a["shape"]:
-            return []           # outside the modelled shape (the generator does not go there)
+            return out          # outside the modelled shape (the generator does not go there)
         if obs.get("notes"):
             out.append("implementation output has content the abstract tree cannot hold: %s" % obs["notes"][:3])
         if a["raises"] != (obs["raised"] is not None):
@@ -1400,6 +1567,27 @@ class C15(fw.Check):
             out.append("model: readDoc (convertTree x) differs from the specification content10 x "
                        "on a WF10 document: %s vs %s" % (json.dumps(a["read"])[:600], json.dumps(a["spec"])[:600]))
         return out
+
+    def decl_diff(self, case, obs, rest):
+        """StringIO input: the model of the text entry point (`dropDecl`) says which text the XML
+        parser gets.  That text has to be the document - it parses (lxml, trusted) to the very tree
+        the model's `convertTree` was asked about and the implementation's output is compared
+        with - so that implementation = convertTree (parse (dropDecl text)) end to end."""
+        text = self.source_of(case)[0]
+        if not isinstance(rest, str) or not text.endswith(rest):
+            return ["front end: the model hands the parser %r, no tail of the source text" % (rest[:80],)]
+        if re.match(r"<\?xml\s[^>]*encoding", rest):
+            return ["front end: the model leaves a declaration that names an encoding in front of the "
+                    "decoded text: %r" % rest[:80]]
+        try:
+            tree = parse_text(rest, [])
+        except Exception as exc:
+            return ["front end: the text the model hands the parser does not parse (%s): %r"
+                    % (fw.exc_name(exc), rest[:80])]
+        if tree != obs["src_parsed"]:
+            return ["front end: the text the model hands the parser is another document than the source: %r"
+                    % rest[:120]]
+        return []
 
     def compare_hist(self, case, obs, answers):
         """every delivered output of a history against the model's conversion of the source as it
